@@ -91,6 +91,7 @@ type Engine struct {
 	typeInvDone map[string]bool
 	nq       int
 	counted  map[string]string
+	immArr   map[string]bool
 }
 
 func newEngine(w *World, top *ssa.Function) *Engine {
@@ -98,7 +99,7 @@ func newEngine(w *World, top *ssa.Function) *Engine {
 	e := &Engine{w: w, c: c, fl: w.fl, heapInfo: map[string]*heapInfo{}, top: top, topKey: fnKey(top), nameCnt: map[string]int{},
 		usedExtern: map[string]bool{}, usedDefault: map[string]bool{}, lockOld: map[string]*State{}, refBirth: map[string]int{},
 		fnById: map[string]*Val{}, guardCache: map[string][]string{}, wsCache: map[string]*WriteSet{}, usedContracts: map[string]bool{},
-		typeInvDone: map[string]bool{}, counted: map[string]string{}}
+		typeInvDone: map[string]bool{}, counted: map[string]string{}, immArr: map[string]bool{}}
 	c.strTheory = w.fl.strTheory
 	return e
 }
